@@ -160,6 +160,9 @@ def placement_job(items):
             if ref[0][0] == "ok":
                 if real[0][0] == "ok" and real[0][1] != ref[0][1]:
                     probs.append(("C01", f"C01|stale|placement={placement}|{spec['key']}", f"{label}: dds returned {real[0][1]!r}, plain execution {ref[0][1]!r}", case))
+                elif real[0][0] == "exc" and real[0][1] == "DDSException" and spec.get("may_refuse") and not real[1] \
+                        and "kept more than once" in str(real[0][2:]):
+                    pass  # the refusal this program allows (OVERLAPPING_PATH before anything ran)
                 elif real[0][0] != "ok":
                     probs.append(("C01", f"C01|raises|{real[0][1][:40] if real[0][0] == 'exc' else 'crash'}|placement={placement}|{spec['key']}",
                                   f"{label}: dds run gave {real[0]!r}, plain execution returned {ref[0][1]!r}", case))
